@@ -66,7 +66,8 @@ class St:
 class Ctx:
     """What a contract clause sees."""
 
-    def __init__(self, eng, old, new, args, res=None, exc=None, loop=None, entry=None):
+    def __init__(self, eng, old, new, args, res=None, exc=None, loop=None, entry=None, outs=None):
+        self.outs = outs or {}
         self.eng = eng
         self._old = old
         self._new = new
@@ -78,6 +79,11 @@ class Ctx:
 
     def a(self, name):
         v = self.args[name]
+        return v.t if isinstance(v, Sym) else v
+
+    def out(self, name):
+        """final value of an in-out parameter (a list the callee mutates in place)"""
+        v = self.outs[name]
         return v.t if isinstance(v, Sym) else v
 
     def __getattr__(self, name):
@@ -1552,8 +1558,10 @@ class Engine:
                     s1.assume(a2 >= a1)
                     self.gwrite(s1, 'alloc', a2)
                     self.assume_alloc(s1, res)
+                outs_ = self._fresh_outs(con)
                 c1 = Ctx(self, pre, s1, cargs, res=(res.t if isinstance(res, Sym) else res),
-                         entry=pre)
+                         entry=pre, outs=outs_)
+                self._store_outs(s1, fi, con, node, outs_)
                 # when the exact exceptional guards are known the normal outcome excludes them
                 for es2 in con.raises:
                     if es2.when is not None and es2.forces:
@@ -1578,7 +1586,9 @@ class Engine:
                     exc = new_exc(es.cls, 'callee')
                 if es.when is not None:
                     s1.assume(es.when(c0))
-                c1 = Ctx(self, pre, s1, cargs, exc=exc, entry=pre)
+                outs_ = self._fresh_outs(con)
+                c1 = Ctx(self, pre, s1, cargs, exc=exc, entry=pre, outs=outs_)
+                self._store_outs(s1, fi, con, node, outs_)
                 for item in es.ensures(c1):
                     s1.assume(item[1])
                 if getattr(con, 'ghost_updates', None) is not None \
@@ -1590,6 +1600,28 @@ class Engine:
                 s1.trace.append('c%s:%s' % (line, es.cls))
                 outs.append((s1, Raise(exc)))
         return outs
+
+    def _fresh_outs(self, con):
+        return {n: Sym(fresh('out_' + n, ty.sort()), ty)
+                for n, ty in (getattr(con, 'inout', None) or {}).items()}
+
+    def _store_outs(self, st, fi, con, node, outs):
+        """an in-out parameter is a list object the callee mutates in place: after the call the
+        caller's variable that was passed denotes the list's final value"""
+        if not outs:
+            return
+        params = list(fi.params)
+        if params and params[0] == 'self' and not fi.is_static:
+            params = params[1:]
+        for n, v in outs.items():
+            if n not in params:
+                raise Unsupported('in-out parameter %s of %s not positional' % (n, fi.qualname))
+            i = params.index(n)
+            kw = [k.value for k in getattr(node, 'keywords', []) if k.arg == n]
+            arg = node.args[i] if i < len(getattr(node, 'args', [])) else (kw[0] if kw else None)
+            if not isinstance(arg, ast.Name):
+                raise Unsupported('in-out argument of %s must be a local variable' % fi.qualname)
+            st.env[arg.id] = v
 
     # ------------------------------------------------------------------------------------------
     # top level: verify one function against its contract
@@ -1705,7 +1737,8 @@ class Engine:
                     self.oblige(s1, False, 'post', 'never-returns')
                     continue
                 res = v
-                c1 = Ctx(self, entry, s1, args, res=self.result_term(res, con, s1), entry=entry)
+                c1 = Ctx(self, entry, s1, args, res=self.result_term(res, con, s1), entry=entry,
+                         outs={n: s1.env.get(n) for n in (getattr(con, 'inout', None) or {})})
                 c1.resval = res
                 for es in con.raises:
                     if es.when is not None and es.forces:
@@ -1740,7 +1773,8 @@ class Engine:
                     if not self.feasible(s2, cond):
                         continue
                     s2.assume(cond)
-                    c1 = Ctx(self, entry, s2, args, exc=exc, entry=entry)
+                    c1 = Ctx(self, entry, s2, args, exc=exc, entry=entry,
+                             outs={n: s2.env.get(n) for n in (getattr(con, 'inout', None) or {})})
                     if es.when is not None and not es.guarded and es.exact:
                         self.oblige(s2, es.when(c0), 'exc-when', es.cls, props=es.props or None)
                     for item in es.ensures(c1):
